@@ -112,8 +112,7 @@ theorem stepOp_recv_blocks_iff {fl : Flavour} (hrv : fl.fam ≠ .rv) (hos : fl.f
         have hg := this.2.1
         unfold goneFor sendersGone at hg ⊢
         have hsc : (mbFlush fl s).sc = s.sc := by simpa [St.shell] using congrArg Shell.sc d
-        have hpd : (mbFlush fl s).pd = s.pd := by simpa [St.shell] using congrArg Shell.pd d
-        rw [hsc, hpd]; exact hg)
+        rw [hsc]; exact hg)
     have hst' : (runPS fl { hot := true, granular := false } ((Op.rcv f h n).size + 3) (mbFlush fl s) (.brecv 0 f h n [])).2
         = .brecv 0 f h n [] := hst
     rw [hst']
